@@ -1151,7 +1151,7 @@ func (e *Exec) guardedAccess(f *frame, a *Addr, h *Heap, g string, in ssa.Instru
 
 // guardObl emits "the protecting mutex is held here".
 func (e *Exec) guardObl(f *frame, gu *guardUse, h *Heap, g string, in ssa.Instruction, write bool) {
-	if gu == nil || e.specDepth > 0 || e.quiet > 0 || (gu.gi.rule.WriteOnly && !write) || !e.wantClause(gu.gi.clause) {
+	if gu == nil || e.specDepth > 0 || e.quiet > 0 || (gu.gi.rule.WriteOnly && !write && !(e.topSpec != nil && e.topSpec.ReadsLocked)) || !e.wantClause(gu.gi.clause) {
 		return
 	}
 	if e.topSpec != nil && e.topSpec.LockExempt != "" {
